@@ -54,7 +54,7 @@ INSTANCES = {
     'species': ['sm_gas', 'sm_ads', 'sm_ref', 'sm_cov', 'sm_noel', 'sm_const'],
     'empirical': ['nasa_gas', 'nasa_surf', 'nasa_noel', 'nasa9_gas', 'shomate_gas', 'shomate_surf'],
     'reaction': ['rxn_sm_ts', 'rxn_sm', 'rxn_nasa', 'rxn_mixed', 'rxn_bep', 'chemkin_ts', 'chemkin',
-                 'surf_ts', 'surf'],
+                 'surf_ts', 'surf', 'chemkin_ts_low', 'surf_ts_low'],
 }
 QUANTITIES = {
     'mode': ['H', 'Cv', 'Cp', 'U', 'S', 'F', 'G'],
@@ -359,13 +359,18 @@ def build(name):
         bep = BEP(slope=0.3, intercept=22., name='H2O_TS', descriptor='delta_H')
         return Reaction(reactants=[_h2(), _o2()], reactants_stoich=[1., 0.5], products=[_h2o()],
                         products_stoich=[1.], transition_state=[bep], transition_state_stoich=[1.]), m
-    if name in ('chemkin_ts', 'chemkin', 'surf_ts', 'surf'):
+    if name in ('chemkin_ts', 'chemkin', 'surf_ts', 'surf', 'chemkin_ts_low', 'surf_ts_low'):
         from pmutt.omkm.reaction import SurfaceReaction
         m['kwblock'] = {'O(S)_kwargs': {'x': 0.7}}
         co = _nasa('CO', 'G', {'C': 1, 'O': 1}, shift=15000.)
         site = _nasa('O(S)', 'S', {'O': 1}, shift=20000.)
         prod = _nasa('CO2(S)', 'S', {'C': 1, 'O': 2}, shift=-4000., misc_models=[_cov('CO2(S)', 'O(S)')])
         ts = [_nasa('TS(S)', 'S', {'C': 1, 'O': 2}, shift=36500.)] if name.endswith('_ts') else None
+        if name.endswith('_ts_low'):
+            # transition state BELOW the reactants of an exothermic step: both the barrier through the
+            # TS and the reaction change are negative forwards, so the clamped getters must answer 0
+            ts = [_nasa('TS(S)', 'S', {'C': 1, 'O': 2}, shift=-16000.)]
+            prod = _nasa('CO2(S)', 'S', {'C': 1, 'O': 2}, shift=-30000., misc_models=[_cov('CO2(S)', 'O(S)')])
         kw = dict(reactants=[co, site], reactants_stoich=[1., 1.], products=[prod], products_stoich=[1.],
                   transition_state=ts, transition_state_stoich=[1.] if ts else None)
         if name.startswith('chemkin'):
@@ -676,7 +681,8 @@ CLASS_OF = {'sm_gas': 'StatMech', 'sm_ads': 'StatMech', 'sm_ref': 'StatMech', 's
             'nasa_noel': 'Nasa', 'nasa9_gas': 'Nasa9', 'shomate_gas': 'Shomate', 'shomate_surf': 'Shomate',
             'rxn_sm_ts': 'Reaction', 'rxn_sm': 'Reaction', 'rxn_nasa': 'Reaction', 'rxn_mixed': 'Reaction',
             'rxn_bep': 'Reaction', 'chemkin_ts': 'ChemkinReaction', 'chemkin': 'ChemkinReaction',
-            'surf_ts': 'SurfaceReaction', 'surf': 'SurfaceReaction'}
+            'surf_ts': 'SurfaceReaction', 'surf': 'SurfaceReaction',
+            'chemkin_ts_low': 'ChemkinReaction', 'surf_ts_low': 'SurfaceReaction'}
 
 LEVEL_TEXT = ('Deviation-bounded exhaustive product enumeration on the real getters: every combination of model '
               'instance, quantity, unit string (all 16 gas-constant keys plus the per-mass forms), temperature '
